@@ -235,6 +235,7 @@ structure IsTIFix (R : Resolver) (env : FnEnv) (G : Graph) (reach : List Nat) (S
   closed : ∀ i n k, i ∈ reach → G.find i = some n → k ∈ n.succs → k ∈ reach
   found : ∀ i, i ∈ reach → ∃ n, G.find i = some n
   ctx : TMap.le (contextTypes env) (ins.get G.entry)
+  entryFree : ∀ x T, (ins.get G.entry).get x = some T → env.isFree x = true
   trans : ∀ i n, i ∈ reach → G.find i = some n → TMap.le (transfer R env n.node (ins.get i)) (outs.get i)
   edge : ∀ i n k, i ∈ reach → G.find i = some n → k ∈ n.succs → TMap.le (outs.get i) (ins.get k)
   freeIn : ∀ i, i ∈ reach → FreeOk env S (ins.get i)
